@@ -521,4 +521,59 @@ def b_fft(c):
     return (lambda v: getattr(ff, prim)(v, **kw)), x, {}
 
 
-BUILDERS = {"linalg": b_linalg, "fft": b_fft, "index": b_index, "join": b_join, "contract": b_contract, "rearr": b_rearr, "binary": b_binary, "where": b_where, "reduce": b_reduce, "cum": b_cum, "unary": b_unary}
+# ----------------------------------------------------------------------------- points on a kink
+def b_kink(c):
+    prim, form, st = c["prim"], c["form"], c["st"]
+    s = tuple(c["s"])
+    x = data(s)
+    if prim in ("max", "min", "amax", "amin"):
+        flat = x.ravel().copy()
+        ext = flat.max() + 0.5 if prim in ("max", "amax") else flat.min() - 0.2
+        if st == "alltie":
+            flat[:] = ext
+        else:
+            k = 2 if st == "tie2" else 3
+            pos = [0, flat.size - 1, flat.size // 2][:min(k, flat.size)]
+            flat[pos] = ext
+        x = flat.reshape(s)
+        ax = axis_arg(c["ax"])
+        return (lambda v: getattr(np, prim)(v, axis=ax, keepdims=c["kd"])), x, {"kink": True}
+    if prim in ("maximum", "minimum", "fmax", "fmin"):
+        other = data(s, 0.4, 1.9, 5)
+        me = other.copy()
+        if st == "equal_some":
+            m = me.ravel()
+            m[1:] = data((m.size - 1,), 0.3, 2.7, 9)
+            me = m.reshape(s)
+        fn = getattr(np, prim)
+        if c["argnum"] == 0:
+            return (lambda v: fn(v, other)), me, {"kink": True}
+        return (lambda v: fn(other, v)), me, {"kink": True}
+    if prim in ("abs", "absolute", "fabs"):
+        x = x - x.ravel()[0] if s else 0.0
+        if s:
+            x = onp.array(x)
+            f = (lambda v: abs(v)) if form == "op" else (lambda v: getattr(np, prim)(v))
+            return f, x, {"kink": True}
+        return ((lambda v: abs(v)) if form == "op" else (lambda v: getattr(np, prim)(v))), 0.0, {"kink": True}
+    if prim == "clip":
+        lo, hi = 0.8, 2.0
+        flat = x.ravel().copy()
+        if st in ("at_lower", "at_both"):
+            flat[0] = lo
+        if st in ("at_upper", "at_both"):
+            flat[-1] = hi
+        x = flat.reshape(s)
+        f = (lambda v: np.clip(v, lo, hi)) if form == "func" else (lambda v: v.clip(lo, hi))
+        return f, x, {"kink": True}
+    if prim == "power":
+        flat = x.ravel().copy()
+        flat[0] = 0.0
+        x = flat.reshape(s)
+        e = float(c["ia"])
+        f = (lambda v: np.power(v, e)) if form == "func" else (lambda v: v ** e)
+        return f, x, {"kink": True}
+    raise Skip("no kink template for " + prim)
+
+
+BUILDERS = {"kink": b_kink, "linalg": b_linalg, "fft": b_fft, "index": b_index, "join": b_join, "contract": b_contract, "rearr": b_rearr, "binary": b_binary, "where": b_where, "reduce": b_reduce, "cum": b_cum, "unary": b_unary}
